@@ -8,6 +8,7 @@ import Model.CachedGuard
 import Model.Migration
 import Model.InquiryEq
 import Model.Serialize
+import Model.RuleCodec
 import Model.Prefilter
 import Model.MongoMig
 import Model.Conc
@@ -266,6 +267,29 @@ def handle (toks : List String) : Option String :=
   | "CANON" :: ts => do
     let v ← full (pVal ts)
     pure ("ok " ++ showVal (Vakt.canon v))
+  | "RULEENC" :: ts => do
+    let r ← full (pRule ts)
+    if !(Vakt.RuleCodec.Rule.wf r) then pure "unmodelled" else
+    pure ("ok " ++ showVal (Vakt.canon (Vakt.RuleCodec.encRule r)))
+  | "RULEDEC" :: ts => do
+    let v ← full (pVal ts)
+    match Vakt.RuleCodec.decRule 64 v with
+    | some r => pure ("ok " ++ showRule r)
+    | Option.none => pure "none"
+  | "POLDEC" :: ts => do
+    let (st, ts) ← pChar ts
+    let (et, ts) ← pChar ts
+    let v ← full (pVal ts)
+    match v with
+    | .dict d =>
+      (match Vakt.RuleCodec.decPolicy 64 st et d with
+       | some p => pure ("ok " ++ showPolicy p)
+       | Option.none => pure "none")
+    | _ => none
+  | "POLENC" :: ts => do
+    let p ← full (pPolicy ts)
+    if !(Vakt.RuleCodec.Policy.wf p) then pure "unmodelled" else
+    pure ("ok " ++ showVal (Vakt.canon (.dict (Vakt.RuleCodec.encPolicy p .none))))
   | "DECODE" :: ts => do
     let v ← full (pVal ts)
     match v with
